@@ -36,6 +36,8 @@ def check(c: Check):
     clause_g(c)
     clause_h(c)
     clause_i(c)
+    from .common import sweep_records
+    sweep_records(c, 'C03-rec', ['exactly_lib.test_case'], floor=10)
 
 
 # ---------------------------------------------------------------- a
